@@ -140,6 +140,8 @@ def run(chk):
     chk.rule("SORTED.invalidate", "every public method that may modify minima_list_ writes minima_list_sorted_ on every path; the flag is set to true only "
              "after a sort of the list (paths added after an Execute must be sorted in before the next one)")
     chk.rule("CONFIG.preserved", "no Execute overload writes a configuration member (loaded paths, options, has_open_paths_, ...) apart from the documented caches")
+    chk.rule("OUTPUT.reset", "every result container an Execute overload receives by reference is emptied before anything is added to it (typestate over "
+             "the callees it is handed to)")
     chk.rule("CLEAR", "Clear() must-defines every member the Add* family may modify")
     chk.rule("LOOP", "no member or outer local is written in one iteration of a per-path / per-group loop and read in the next before re-initialisation")
     chk.rule("DET.relational-comparisons", "no relational comparison of pointers, no unordered containers")
@@ -208,6 +210,11 @@ def run(chk):
             e2.rule_loop(eng, chk, cfg, f, ls[0], RECT, [{}], "path loop of " + q)
         if eng.unknown_methods:
             raise AnalysisBroken("container methods without a model: %s" % sorted(eng.unknown_methods))
+        # ---- results do not depend on what the caller's output containers held ---------------------------
+        from ..engines import e10_pipeline as e10
+        outs = db.find("Clipper64::Execute") + db.find("ClipperD::Execute") + db.find("ClipperOffset::Execute")
+        if e10.rule_outputs_reset(db, chk, cfg, outs) < 10:
+            raise AnalysisBroken("OUTPUT.reset: fewer than 10 output parameters found on the Execute overloads")
         # ---- determinism and shared data -----------------------------------------------------
         e1.rule_pointer_order(db, chk, cfg)
         e1.rule_r2(Module(cfg), chk, cfg)
